@@ -11,13 +11,13 @@ import (
 
 const (
 	fnExecIface     = "(pkg/executor.Executor).Execute"
-	fnExecDefault   = "(*pkg/executor.DefaultExecutor).Execute"
-	fnCompileTask   = "(*pkg/runner.TaskCompiler).CompileTask"
-	fnCompileCmd    = "(*pkg/runner.TaskCompiler).CompileCommand"
-	fnCtxUp         = "(*pkg/runner.ExecutionContext).Up"
-	fnCtxDown       = "(*pkg/runner.ExecutionContext).Down"
-	fnCtxBefore     = "(*pkg/runner.ExecutionContext).Before"
-	fnCtxAfter      = "(*pkg/runner.ExecutionContext).After"
+	fnExecDefault   = "(pkg/executor.DefaultExecutor).Execute"
+	fnCompileTask   = "(pkg/runner.TaskCompiler).CompileTask"
+	fnCompileCmd    = "(pkg/runner.TaskCompiler).CompileCommand"
+	fnCtxUp         = "(pkg/runner.ExecutionContext).Up"
+	fnCtxDown       = "(pkg/runner.ExecutionContext).Down"
+	fnCtxBefore     = "(pkg/runner.ExecutionContext).Before"
+	fnCtxAfter      = "(pkg/runner.ExecutionContext).After"
 	fnIsExitStatus  = "pkg/executor.IsExitStatus"
 	fnNewTaskOutput = "pkg/output.NewTaskOutput"
 	fnOutStart      = "(pkg/output.TaskOutput).Start"
@@ -91,7 +91,34 @@ func resolveRunner(c *an.Ctx, rule string) *runnerRoles {
 				}
 			}
 			if adv {
-				r.execute, r.jobLoop = f, l
+				// … and executes: the loop that links the jobs together while compiling advances through .Next too
+				executes := false
+				for b := range l.Blocks {
+					for _, in := range b.Instrs {
+						ci, ok := in.(ssa.CallInstruction)
+						if !ok {
+							continue
+						}
+						if _, isExec := isExecCall(in); isExec {
+							executes = true
+							continue
+						}
+						var roots []*ssa.Function
+						for _, callee := range p.Callees(ci.Common()) {
+							if an.InModule(callee) && inPkgs("pkg/runner")(callee) && callee != f {
+								roots = append(roots, callee)
+							}
+						}
+						for g := range p.Reach(roots, func(e an.CallEdge) bool { return e.Kind == an.EdgeCall && inPkgs("pkg/runner")(e.Callee) }) {
+							if g.Blocks != nil && len(an.CallsIn(g, fnExecIface, fnExecDefault)) > 0 {
+								executes = true
+							}
+						}
+					}
+				}
+				if executes || r.execute == nil {
+					r.execute, r.jobLoop = f, l
+				}
 			}
 		}
 		an.EachInstr(f, func(in ssa.Instruction) {
